@@ -50,7 +50,10 @@ fn table() -> Vec<Entry> {
         plane("utm zone=32", inside_geo.clone(), vec![geo(9. + 89.95, 0.01, 0., 0.), geo(9. - 89.99, -0.02, 5., 1.)], vec![[5e7, 1000., 0., 0.], [-4e7, 1e6, 2., 3.]]),
         plane("tmerc lat_0=3 lon_0=9 k_0=0.9996 x_0=500000 y_0=100", inside_geo.clone(), vec![geo(9. + 89.95, 0.005, 0., 0.)], vec![[6e7, 0., 0., 0.]]),
         plane("laea lat_0=52 lon_0=10 x_0=4321000 y_0=3210000", inside_geo.clone(), vec![], vec![[4321000. + 2e7, 3210000., 1., 2.], [4321000., 3210000. - 1.4e7, 0., 0.]]),
-        plane("laea lat_0=90 lon_0=10", vec![geo(12., 55., 100., 2020.5), geo(-100., 80., 0., 2000.)], vec![], vec![]),
+        // (the laea disc has the radius 2 Rq, about 12 742 km: beyond it no point of the ellipsoid maps)
+        plane("laea lat_0=90 lon_0=10", vec![geo(12., 55., 100., 2020.5), geo(-100., 80., 0., 2000.)], vec![], vec![[2e7, 0., 1., 2.], [0., -1.4e7, 0., 0.], [9.1e6, 9.1e6, 0., 0.]]),
+        plane("laea lat_0=-90 lon_0=10 x_0=1000 y_0=2000", vec![geo(12., -55., 100., 2020.5), geo(-100., -80., 0., 2000.)], vec![], vec![[2e7, 0., 1., 2.], [0., -1.4e7, 0., 0.], [-9.1e6, 9.1e6, 0., 0.]]),
+        plane("laea lat_0=0 lon_0=-70", inside_geo.clone(), vec![], vec![[2e7, 0., 1., 2.], [0., -1.4e7, 0., 0.], [-9.1e6, 9.1e6, 0., 0.]]),
         plane("lcc lat_1=33 lat_2=45 lon_0=10 lat_0=40", inside_geo.clone(), vec![], vec![]),
         Entry { def: "merc lat_ts=56", writes: xy, deps: [0b01, 0b10, 0, 0], deps_inv: None, inside: inside_geo.clone(), outside_fwd: vec![], outside_inv: vec![], invertible: true },
         Entry { def: "webmerc", writes: xy, deps: [0b01, 0b10, 0, 0], deps_inv: None, inside: inside_geo.clone(), outside_fwd: vec![], outside_inv: vec![], invertible: true },
@@ -74,6 +77,13 @@ fn table() -> Vec<Entry> {
         Entry { def: "gridshift grids=5458.gsb", writes: xy, deps: [xy, xy, 0, 0], deps_inv: None, inside: vec![geo(12., 55., 0., 2000.), geo(9.5, 56.25, 10., 2001.)], outside_fwd: vec![geo(30., 30., 0., 2020.)], outside_inv: vec![geo(30., 30., 0., 2020.)], invertible: true },
         Entry { def: "deformation grids=test.deformation t_epoch=2000", writes: xyz, deps: [xyz, xyz, xyz, xyz], deps_inv: None, inside: cov.iter().map(cart).collect(), outside_fwd: outside_cov.iter().map(cart).collect(), outside_inv: outside_cov.iter().map(cart).collect(), invertible: true },
         Entry { def: "deflection grids=test.geoid", writes: xy, deps: [xy, xy, 0, 0], deps_inv: None, inside: vec![[55., 12., 0., 0.], [56.25, 9.5, 0., 1.]], outside_fwd: vec![[30., 30., 0., 0.], [60., 12., 0., 0.]], outside_inv: vec![], invertible: false },
+        // geodesics: forward (lat, lon, azimuth, distance) -> (lat2, lon2, lat1, lon1); inverse (lat1, lon1, lat2, lon2) ->
+        // (azi1, azi2, distance, return azimuth), or in the reversible mode (lat2, lon2, return azimuth, distance).
+        // A nearly antipodal pair does not converge: NaN and not counted, in both modes
+        Entry { def: "geodesic", writes: 0b1111, deps: [0b0111, 0b1010, 0b0011, 0b0011], deps_inv: Some([0b1111; 4]), inside: vec![[55., 12., 45., 100000.], [-33., 100., 270., 2e6], [0., 0., 90., 1e6]],
+                outside_fwd: vec![], outside_inv: vec![[0., 0., 0.5, 179.7], [10., -60., -10.2, 119.9]], invertible: true },
+        Entry { def: "geodesic reversible", writes: 0b1111, deps: [0b0111, 0b1010, 0b0011, 0b0011], deps_inv: Some([0b1100, 0b1100, 0b1101, 0b1110]), inside: vec![[55., 12., 45., 100000.], [-33., 100., 270., 2e6], [0., 0., 90., 1e6]],
+                outside_fwd: vec![], outside_inv: vec![[0., 0., 0.5, 179.7], [10., -60., -10.2, 119.9]], invertible: true },
         // one-way operators
         Entry { def: "curvature prime", writes: 0b0001, deps: [0b1, 0, 0, 0], deps_inv: None, inside: vec![[55., 12., 0., 0.], [-33., 100., 5., 6.]], outside_fwd: vec![], outside_inv: vec![], invertible: false },
         Entry { def: "gravity grs80", writes: 0b0001, deps: [0b1, 0b1, 0, 0], deps_inv: None, inside: vec![[55., 100., 0., 0.], [-33., 0., 5., 6.]], outside_fwd: vec![], outside_inv: vec![], invertible: false },
@@ -364,7 +374,7 @@ fn domain_edges(rep: &Report, tier: Tier, outcomes: &Mutex<HashSet<u64>>) {
 
 pub fn run(tier: Tier) -> Report {
     let rep = Report::new("C10", tier, "exploration");
-    rep.rule("operator table (28 entries) x supported directions x {inside, far outside} tuples x all 16 NaN masks over the four elements, each tuple applied alone and in one set; \
+    rep.rule("operator table (32 entries) x supported directions x {inside, far outside} tuples x all 16 NaN masks over the four elements, each tuple applied alone and in one set; \
               grid operators with the null grid; pipelines with failing steps; every projection aspect x 2 ellipsoids x a lattice over the whole projected plane (inverse direction, \
               classification and result compared between two false origins). A per-operator dependency matrix says which outputs depend on which inputs. \
               distinct_nontrivial = distinct observed output bit patterns");
